@@ -23,12 +23,13 @@ inductive QState where
 deriving Repr, DecidableEq
 
 /-- a cache entry; `ty = none` is the zero-valued `arvados.InstanceType{}`; `addedSt` is a ghost
-field: the state the container was in when `addEnt` inserted it -/
+fields: the state the container was in, and the constraints it had, when `addEnt` inserted it -/
 structure CEnt where
   st : QState
   prio : Int
   ty : Option Nat
   addedSt : QState
+  addedNeed : Nat
 deriving Repr, DecidableEq
 
 /-- one record of a poll response / of a Lock-Unlock-Cancel response; `need` stands for the
@@ -69,10 +70,10 @@ def localResp (c : Cache) (u : Nat) (st : QState) (prio : Int) : Cache :=
 /-- `addEnt`: the new `current` and whether a cancel task was started -/
 def addEnt (choose : Nat → Option Nat) (cur : List (Nat × CEnt)) (r : Rec) : List (Nat × CEnt) × Bool :=
   match choose r.need with
-  | some t => (setEnt cur r.uuid { st := r.st, prio := r.prio, ty := some t, addedSt := r.st }, false)
+  | some t => (setEnt cur r.uuid { st := r.st, prio := r.prio, ty := some t, addedSt := r.st, addedNeed := r.need }, false)
   | none =>
     if r.st = .queued ∨ r.st = .locked then (cur, true)
-    else (setEnt cur r.uuid { st := r.st, prio := r.prio, ty := none, addedSt := r.st }, false)
+    else (setEnt cur r.uuid { st := r.st, prio := r.prio, ty := none, addedSt := r.st, addedNeed := r.need }, false)
 
 /-- first loop of the second half of `Update()`: apply the polled records -/
 def applyRecs (choose : Nat → Option Nat) (d : Option (List Nat)) :
@@ -95,6 +96,21 @@ def expunge (d : Option (List Nat)) (next : List Rec) (cur : List (Nat × CEnt))
 def applyPoll (choose : Nat → Option Nat) (c : Cache) (next : List Rec) : Cache × List Nat :=
   let a := applyRecs choose c.dontupdate next c.current []
   ({ current := expunge c.dontupdate next a.1, dontupdate := none }, a.2)
+
+/-- the calls that change the cache -/
+inductive QOp where
+  | begin                                   -- Update() starts
+  | resp (u : Nat) (st : QState) (prio : Int)   -- a Lock / Unlock / Cancel response arrives
+  | poll (next : List Rec)                  -- poll() has returned `next`; Update() applies it
+
+def runOp (choose : Nat → Option Nat) (c : Cache) : QOp → Cache
+  | .begin => beginUpdate c
+  | .resp u st prio => localResp c u st prio
+  | .poll next => (applyPoll choose c next).1
+
+def runOps (choose : Nat → Option Nat) (ops : List QOp) (c : Cache) : Cache := ops.foldl (runOp choose) c
+
+def emptyCache : Cache := { current := [], dontupdate := none }
 
 /-! ### the in-memory controller of the correspondence driver (test scaffolding) -/
 
